@@ -1000,3 +1000,96 @@ Example sort_example :
                         ("m", EAdd (EVar "k") (EVar "a"))]%string) = true
   /\ snd (sort_assigns [("r", EVar "m"); ("m", EVar "r")]%string) = false.
 Proof. vm_compute. repeat split; reflexivity. Qed.
+
+(* ============================================================================================ J. uniqueness *)
+(* Any memory that satisfies the equations simultaneously agrees with the recursive denotation wherever the latter is
+   defined (for well-formed = acyclic systems: everywhere).  Hence the memory left by the sorted run IS the recursive
+   meaning (flat level: sorted_run_is_den), and any simultaneous solution of a network's equations IS Net.value. *)
+Definition ext_le {K} (f g : K -> option Qc) : Prop := forall k w, f k = Some w -> g k = Some w.
+
+Lemma eval_mono env1 env2 e v : ext_le env1 env2 -> eval env1 e = Some v -> eval env2 e = Some v.
+Proof.
+  intros Hle. revert v. induction e; intros v H; cbn [eval] in *; auto.
+  - destruct (eval env1 e1) as [a|]; [|discriminate]. destruct (eval env1 e2) as [b|]; [|discriminate].
+    rewrite (IHe1 a eq_refl), (IHe2 b eq_refl). exact H.
+  - destruct (eval env1 e1) as [a|]; [|discriminate]. destruct (eval env1 e2) as [b|]; [|discriminate].
+    rewrite (IHe1 a eq_refl), (IHe2 b eq_refl). exact H.
+  - destruct (eval env1 e1) as [a|]; [|discriminate]. destruct (eval env1 e2) as [b|]; [|discriminate].
+    rewrite (IHe1 a eq_refl), (IHe2 b eq_refl). exact H.
+  - destruct (eval env1 e) as [a|]; [|discriminate]. rewrite (IHe a eq_refl). exact H.
+  - destruct (eval env1 e) as [a|]; [|discriminate]. rewrite (IHe a eq_refl). exact H.
+Qed.
+
+Lemma find_assign_In prog x p : find (fun p : assign => String.eqb (fst p) x) prog = Some p -> In p prog /\ fst p = x.
+Proof. intros H. apply find_some in H. destruct H as [Hin He]. apply String.eqb_eq in He. auto. Qed.
+Lemma find_assign_None prog x : find (fun p : assign => String.eqb (fst p) x) prog = None -> ~ In x (map fst prog).
+Proof.
+  intros H Hin. apply in_map_iff in Hin. destruct Hin as [p [Hf Hp]].
+  pose proof (find_none _ _ H p Hp) as Hn. cbn in Hn. rewrite Hf, String.eqb_refl in Hn. discriminate.
+Qed.
+
+(* flat level: every solution of the assignments over the base memory extends the recursive denotation *)
+Theorem solution_extends_den : forall prog env M,
+  (forall p, In p prog -> M (fst p) = eval M (snd p)) -> (forall x, ~ In x (map fst prog) -> M x = env x) ->
+  forall fuel, ext_le (den_assigns prog env fuel) M.
+Proof.
+  intros prog env M Hsol Hbase. induction fuel as [|f IH]; intros x w H; cbn [den_assigns] in H; [discriminate|].
+  destruct (find (fun p : assign => String.eqb (fst p) x) prog) as [p|] eqn:F.
+  - destruct (find_assign_In _ _ _ F) as [Hin <-]. rewrite (Hsol p Hin). apply (eval_mono _ _ _ _ IH). exact H.
+  - rewrite (Hbase x (find_assign_None _ _ F)). exact H.
+Qed.
+
+(* the memory left by running the assignments in the order chosen by _sort_var_updates IS the recursive meaning *)
+Theorem sorted_run_is_den : forall prog out env, sort_assigns prog = (out, true) -> NoDup (map fst prog) ->
+  (forall p, In p prog -> ~ In (fst p) (fv (snd p))) ->
+  forall fuel x w, den_assigns prog env fuel x = Some w -> run_assigns out env x = Some w.
+Proof.
+  intros prog out env Hs Hnd Hself fuel.
+  destruct (sorted_run_solves prog out env Hs Hnd Hself) as (_ & Hsol & Hbase).
+  exact (solution_extends_den prog env (run_assigns out env) Hsol Hbase fuel).
+Qed.
+
+(* network level *)
+Lemma osum_map_mono {B} (f1 f2 : B -> option Qc) l w :
+  (forall a u, f1 a = Some u -> f2 a = Some u) -> osum (map f1 l) = Some w -> osum (map f2 l) = Some w.
+Proof.
+  intros Hle. revert w. induction l as [|a l IH]; intros w H; cbn [map osum] in *; [exact H|].
+  destruct (f1 a) as [u|] eqn:E; [|discriminate]. destruct (osum (map f1 l)) as [r|]; [|discriminate].
+  rewrite (Hle a u E), (IH r eq_refl). exact H.
+Qed.
+
+Lemma input_spec_mono n pa sv1 sv2 v p w : ext_le sv1 sv2 ->
+  input_spec n pa sv1 v p = Some w -> input_spec n pa sv2 v p = Some w.
+Proof.
+  intros Hle. unfold input_spec.
+  assert (Hgen : forall es : list edge,
+     olift2 Qcplus (osum (map sv1 p)) (osum (map (fun e => oscale (ew e) (sv1 (esrc e))) es)) = Some w ->
+     olift2 Qcplus (osum (map sv2 p)) (osum (map (fun e => oscale (ew e) (sv2 (esrc e))) es)) = Some w).
+  { intros es H. destruct (osum (map sv1 p)) as [a|] eqn:E1; [|discriminate].
+    destruct (osum (map (fun e => oscale (ew e) (sv1 (esrc e))) es)) as [b|] eqn:E2; [|discriminate].
+    rewrite (osum_map_mono sv1 sv2 p a Hle E1).
+    rewrite (osum_map_mono (fun e => oscale (ew e) (sv1 (esrc e))) (fun e => oscale (ew e) (sv2 (esrc e))) es b); [exact H | | exact E2].
+    intros e u Hu. unfold oscale in *. destruct (sv1 (esrc e)) as [s|] eqn:Es; [|discriminate].
+    rewrite (Hle _ _ Es). exact Hu. }
+  destruct p as [|p0 p]; [destruct (in_edges n v) as [|e es]|]; auto.
+Qed.
+
+(* every memory that satisfies all equations of the network simultaneously IS Net.value wherever value is defined
+   (for well-formed networks Net.wf demands that value is defined on every variable) *)
+Theorem solution_extends_value : forall n st pa M, solves n st pa M ->
+  forall fuel, ext_le (value_with n st pa (input_spec n pa) fuel) M.
+Proof.
+  intros n st pa M Hsol. induction fuel as [|f IH]; intros v w H; cbn [value_with] in H; [discriminate|].
+  pose proof (Hsol v) as Hv. destruct (lookup n v) as [[[ops op] d]|]; [|discriminate].
+  destruct v as [[nd o] x]. destruct (vk d).
+  - rewrite Hv. exact H.
+  - rewrite Hv. exact H.
+  - rewrite Hv. apply (input_spec_mono n pa _ M _ _ w IH). exact H.
+  - destruct (find_eq op x false) as [q|] eqn:F; cbn [obind] in H; [|discriminate].
+    rewrite (Hv q eq_refl). apply (eval_mono (fun y => value_with n st pa (input_spec n pa) f (nd, o, y))); [|exact H].
+    intros y u Hy. apply IH. exact Hy.
+Qed.
+
+Corollary solution_is_value : forall n st pa M, solves n st pa M ->
+  forall v w, value n st pa v = Some w -> M v = Some w.
+Proof. intros n st pa M Hsol v w. apply (solution_extends_value n st pa M Hsol). Qed.
